@@ -1,3 +1,199 @@
-From ST Require Import Base.Outcome Str.SliceSpec Str.SliceModel Str.SplitSpec Str.SplitModel.
-Theorem placeholder : True. Proof. exact I. Qed.
-Print Assumptions placeholder.
+(* Properties/C09.v — split, tokenize and replace partition the text exactly; join inverts split.
+   Statements only; proofs in Str/SplitProofs*.v.  Every model equals `Ok spec` (or the documented
+   Throw / Abort), hence in particular never Fault Hang: every call terminates, the fuel
+   S (S (length s)) of the transcribed loops always suffices.                                   *)
+From Coq Require Import NArith ZArith List Bool.
+From ST Require Import Base.Outcome Base.Units Gen.Consts Str.Model Str.SliceSpec Str.SliceModel Str.SplitSpec Str.SplitModel
+     Str.SliceProofsBase Str.SliceProofsFind Str.SliceProofsFront Str.SliceProofsBA
+     Str.SplitProofs Str.SplitProofsReplace Str.SplitProofsTok Str.SplitProofsVal Str.SplitProofsWf Str.SplitProofsWfCor
+     Str.SliceExamples.
+Import ListNotations.
+Local Open Scope N_scope.
+Local Open Scope outcome_scope.
+
+(* ---- the spec: at most max + 1 pieces, cut at the first occurrences left to right, join inverts ---- *)
+Theorem split_pieces_bound ci h sep max : N.of_nat (length (split_spec ci h sep max)) <= max + 1.
+Proof. exact (split_pieces ci h sep max). Qed.
+Print Assumptions split_pieces_bound.
+
+Theorem split_cuts_at_first_occurrence ci h sep max i : 0 < max -> first_occ ci sep h = Some i ->
+  split_spec ci h sep max = firstn i h :: split_spec ci (skipn (i + length sep) h) sep (max - 1).
+Proof. exact (split_spec_step ci h sep max i). Qed.
+Print Assumptions split_cuts_at_first_occurrence.
+
+Theorem split_without_occurrence ci h sep max :
+  (first_occ ci sep h = None -> split_spec ci h sep max = [h]) /\ split_spec ci h sep 0 = [h].
+Proof. exact (conj (split_spec_none ci h sep max) (split_zero_max ci h sep)). Qed.
+Print Assumptions split_without_occurrence.
+
+Theorem join_inverts_split h sep max : join sep (split_spec false h sep max) = h.
+Proof. exact (join_split h sep max). Qed.
+Print Assumptions join_inverts_split.
+
+Theorem join_inverts_split_up_to_case ci h sep max :
+  map (fold_c ci) (join sep (split_spec ci h sep max)) = map (fold_c ci) h.
+Proof. exact (join_split_fold ci h sep max). Qed.
+Print Assumptions join_inverts_split_up_to_case.
+
+Theorem empty_separator_leaves_text_whole ci h max : split_spec ci h [] max = [h].
+Proof. exact (split_empty_sep ci h max). Qed.
+Print Assumptions empty_separator_leaves_text_whole.
+
+(* ---- the three overloads equal the spec, all max_splits in size_t, both case modes ---- *)
+Theorem split_string_is_spec cs s sep max : bytes_ok s = true -> bytes_ok sep = true ->
+  split_s cs s sep max = Ok (split_spec (ci_of cs) s sep max).
+Proof. exact (split_s_spec cs s sep max). Qed.
+Print Assumptions split_string_is_spec.
+
+Theorem split_char_is_spec cs s ch max : 0 < ch -> ch < 128 ->
+  split_c cs s ch max = Ok (split_spec (ci_of cs) s [ch] max).
+Proof. exact (split_c_spec cs s ch max). Qed.
+Print Assumptions split_char_is_spec.
+
+Theorem split_char_outside_ascii_aborts cs s ch max : ch = 0 \/ 128 <= ch -> split_c cs s ch max = Abort AbSplitChar.
+Proof. exact (split_c_precondition cs s ch max). Qed.
+Print Assumptions split_char_outside_ascii_aborts.
+
+(* the const char* form re-validates every piece when the separator has a byte >= 0x80 *)
+Theorem split_cstr_is_spec cs s a k max :
+  bytes_ok s = true -> bytes_ok a = true -> c_strlen a = Ok k -> size s < huge_buffer_size ->
+  split_z cs s (Some a) max =
+  let pieces := split_spec (ci_of cs) s (c_content a) max in
+  if sep_has_high (c_content a) && negb (forallb wf8s pieces) then Throw UnicodeError else Ok pieces.
+Proof. exact (split_z_spec cs s a k max). Qed.
+Print Assumptions split_cstr_is_spec.
+
+Theorem split_null_aborts cs s max : split_z cs s None max = Abort AbSplitNull.
+Proof. exact (split_z_null cs s max). Qed.
+Print Assumptions split_null_aborts.
+
+Theorem split_overloads_agree_char cs s ch max : bytes_ok s = true -> 0 < ch -> ch < 128 ->
+  split_c cs s ch max = split_s cs s [ch] max.
+Proof. exact (split_overloads_c_s cs s ch max). Qed.
+Print Assumptions split_overloads_agree_char.
+
+Theorem split_overloads_agree_cstr cs s sep max :
+  bytes_ok s = true -> bytes_ok sep = true -> ~ In 0 sep -> size s < huge_buffer_size ->
+  sep_has_high sep = false \/ forallb wf8s (split_spec (ci_of cs) s sep max) = true ->
+  split_z cs s (Some (sep ++ [0])) max = split_s cs s sep max.
+Proof. exact (split_overloads_z_s cs s sep max). Qed.
+Print Assumptions split_overloads_agree_cstr.
+
+Example split_examples :
+  split_s CaseSensitive a_b_c [44] 1 = Ok [[97]; [98; 44; 99]] /\
+  split_c CaseInsensitive a_b_c 44 size_max = Ok [[97]; [98]; [99]] /\
+  split_z CaseSensitive a_b_c (Some [44; 0]) 5 = Ok [[97]; [98]; [99]] /\
+  split_s CaseSensitive [97; 0; 98] [] size_max = Ok [[97; 0; 98]].
+Proof. exact ex_split. Qed.
+Example split_hypotheses_satisfiable :
+  bytes_ok a_b_c = true /\ 0 < 44 /\ 44 < 128 /\ c_strlen [44; 0] = Ok 1%nat /\ size a_b_c < huge_buffer_size.
+Proof. exact ex_split_hyps. Qed.
+Example split_cstr_revalidation_differs :
+  split_z CaseSensitive [97; 195; 169; 169] (Some [195; 169; 0]) 9 = Throw UnicodeError /\
+  split_s CaseSensitive [97; 195; 169; 169] [195; 169] 9 = Ok [[97]; [169]].
+Proof. exact ex_split_revalidate. Qed.
+
+(* ---- tokenize ---- *)
+Theorem tokenize_is_spec s delims k : c_strlen delims = Ok k ->
+  tokenize_model s delims = Ok (tokenize_spec s (c_content delims)).
+Proof. exact (tokenize_model_spec s delims k). Qed.
+Print Assumptions tokenize_is_spec.
+
+Theorem tokens_are_nonempty_delimiter_free_runs s set :
+  (forall t, In t (tokenize_spec s set) -> t <> []) /\
+  (forall t x, In t (tokenize_spec s set) -> In x t -> in_set set x = false) /\
+  concat (tokenize_spec s set) = filter (fun x => negb (in_set set x)) s.
+Proof.
+  exact (conj (tokenize_no_empty s set) (conj (tokenize_no_delim s set) (tokenize_concat_filter s set))).
+Qed.
+Print Assumptions tokens_are_nonempty_delimiter_free_runs.
+
+(* maximality: the first token is the whole first run, the rest is the tokenization of what follows *)
+Theorem tokens_are_maximal set l :
+  tokenize_spec l set =
+  let rest := tokenize_spec (drop_while (pw set true) (drop_while (pw set false) l)) set in
+  match take_while (pw set false) l with [] => rest | t => t :: rest end.
+Proof. exact (tokenize_spec_step set l). Qed.
+Print Assumptions tokens_are_maximal.
+
+(* ---- replace ---- *)
+Theorem replace_length_law ci h from to :
+  (length (replace_spec ci h from to) + occ_count ci h from * length from =
+   length h + occ_count ci h from * length to)%nat.
+Proof. exact (replace_length ci h from to). Qed.
+Print Assumptions replace_length_law.
+
+(* scans_agree: the counted size is exactly what the copy writes: no OOBWrite, no Unwritten *)
+Theorem replace_scans_agree cs s from to :
+  bytes_ok s = true -> bytes_ok from = true -> from <> [] -> fits s ->
+  size to < two64 -> size from < two64 -> fits (replace_spec (ci_of cs) s from to) ->
+  replace_bytes cs s from to = Ok (replace_spec (ci_of cs) s from to).
+Proof. exact (replace_bytes_spec cs s from to). Qed.
+Print Assumptions replace_scans_agree.
+
+(* the result passes through the validating constructor: that is the only way replace throws *)
+Theorem replace_is_spec cs s from to :
+  bytes_ok s = true -> bytes_ok from = true -> from <> [] -> s <> [] -> bytes_ok to = true -> fits s ->
+  size to < two64 -> size from < two64 -> fits (replace_spec (ci_of cs) s from to) ->
+  replace_model cs s from to =
+  if wf8s (replace_spec (ci_of cs) s from to) then Ok (replace_spec (ci_of cs) s from to) else Throw UnicodeError.
+Proof. exact (replace_model_spec cs s from to). Qed.
+Print Assumptions replace_is_spec.
+
+Theorem replace_empty_pattern_or_subject cs s from to :
+  (s = [] \/ from = [] -> replace_model cs s from to = Ok s) /\ replace_spec (ci_of cs) s [] to = s.
+Proof. exact (conj (replace_empty cs s from to) (replace_spec_empty (ci_of cs) s to)). Qed.
+Print Assumptions replace_empty_pattern_or_subject.
+
+Theorem replace_overloads_agree cs s a b ka kb v :
+  bytes_ok a = true -> bytes_ok b = true -> c_strlen a = Ok ka -> c_strlen b = Ok kb ->
+  N.of_nat ka < huge_buffer_size -> N.of_nat kb < huge_buffer_size ->
+  v = VAssume \/ (wf8s (c_content a) = true /\ wf8s (c_content b) = true) ->
+  replace_zz cs s (Some a) (Some b) v = replace_model cs s (c_content a) (c_content b) /\
+  replace_sz cs s (c_content a) (Some b) v = replace_model cs s (c_content a) (c_content b) /\
+  replace_zs cs s (Some a) (c_content b) v = replace_model cs s (c_content a) (c_content b).
+Proof. exact (replace_overloads cs s a b ka kb v). Qed.
+Print Assumptions replace_overloads_agree.
+
+Example replace_examples :
+  replace_model CaseSensitive [97; 97; 97; 98; 97] [97; 97] [120; 121; 122] = Ok [120; 121; 122; 97; 98; 97] /\
+  occ_count false [97; 97; 97; 98; 97] [97; 97] = 1%nat /\
+  replace_model CaseSensitive [255; 97] [98] [99] = Throw UnicodeError.
+Proof. exact ex_replace. Qed.
+Example replace_hypotheses_satisfiable :
+  let s := [97; 97; 97; 98; 97] in let f := [97; 97] in let t := [120; 121; 122] in
+  bytes_ok s = true /\ bytes_ok f = true /\ bytes_ok t = true /\ f <> [] /\ s <> [] /\ fits s /\
+  size t < two64 /\ size f < two64 /\ fits (replace_spec false s f t).
+Proof. exact ex_replace_hyps. Qed.
+
+(* ---- well-formed text: the validation steps are the identity (UTF-8 self-synchronisation) ---- *)
+Theorem pieces_are_wellformed ci h sep max :
+  wf8s h = true -> wf8s sep = true -> sep <> [] -> forallb wf8s (split_spec ci h sep max) = true.
+Proof. exact (pieces_wf ci h sep max). Qed.
+Print Assumptions pieces_are_wellformed.
+
+Theorem split_cstr_never_throws_on_wellformed cs s sep max :
+  bytes_ok s = true -> bytes_ok sep = true -> ~ In 0 sep -> size s < huge_buffer_size ->
+  sep <> [] -> wf8s s = true -> wf8s sep = true ->
+  split_z cs s (Some (sep ++ [0])) max = Ok (split_spec (ci_of cs) s sep max).
+Proof. exact (split_z_wf cs s sep max). Qed.
+Print Assumptions split_cstr_never_throws_on_wellformed.
+
+Theorem replace_on_wellformed cs s from to :
+  bytes_ok s = true -> bytes_ok from = true -> bytes_ok to = true -> fits s ->
+  size to < two64 -> size from < two64 -> fits (replace_spec (ci_of cs) s from to) ->
+  wf8s s = true -> wf8s from = true -> wf8s to = true ->
+  replace_model cs s from to = Ok (replace_spec (ci_of cs) s from to).
+Proof. exact (replace_model_wf cs s from to). Qed.
+Print Assumptions replace_on_wellformed.
+
+(* ---- the validator the results pass through, and fill ---- *)
+Theorem validator_is_structural_wf buf : bytes_ok buf = true ->
+  exists e, validate_utf8 buf = Ok e /\ (e = VSuccess <-> wf8s buf = true).
+Proof. exact (validate_utf8_spec buf). Qed.
+Print Assumptions validator_is_structural_wf.
+
+Theorem fill_is_spec count c : count + 1 < two63 -> c < 256 ->
+  fill_model count c = if wf8s (repeat c (N.to_nat count)) then Ok (repeat c (N.to_nat count)) else Throw UnicodeError.
+Proof. exact (fill_model_spec count c). Qed.
+Print Assumptions fill_is_spec.
